@@ -469,6 +469,93 @@ func c12SourceScenario(c *choice.Ctx, rep *report.R) {
 	rep.State(desc)
 }
 
+// c12SizeScenario: the OPT rule under size limits. Every listener seam x client OPT {absent, advertising 0, 100, 512, 513, 1232}
+// x upstream answer of about {100, 600, 1500, 3000} octets x upstream OPT {absent, present}; miss, then a hit from the cache.
+// Whatever the listener has to omit to fit its limit, the response has exactly one option-less OPT iff the query had one.
+func c12SizeScenario(c *choice.Ctx, rep *report.R) {
+	own := env.InstallOwn(0xA5, vRace)
+	defer env.UninstallOwn()
+	sm := c03Seams[c.Choose(len(c03Seams), "seam")]
+	adv := []int{-1, 0, 100, 512, 513, 1232}[c.Choose(6, "client-opt-size")]
+	ntxt := []int{0, 2, 6, 12}[c.Choose(4, "answer-size")]
+	upOpt := c.Choose(2, "upstream-opt") == 1
+	// on the seam with a size limit that depends on the client (udp): a sweep of the last record's length, so that the records in
+	// front of the OPT fill the message to every level just below, at and above the limit (max(512, advertised))
+	lastTxt := -1
+	if sm.name == "udp" && adv >= 0 && ntxt == 2 {
+		if i := c.Choose(257, "last-record-length"); i > 0 {
+			lastTxt = i - 1
+			ntxt = 1
+			if adv > 513 {
+				ntxt = 4
+			}
+		}
+	}
+	desc := fmt.Sprintf("seam=%s client OPT size=%d (-1: no OPT) upstream answer with %d TXT records of 240 octets and one of %d (-1: none), upstream OPT=%v", sm.name, adv, ntxt, lastTxt, upOpt)
+	fail := func(sig, msg string) {
+		rep.Violate("C12:size:"+sig, msg+"\n  "+desc, map[string]any{"Choices": c.Choices(), "Size": true})
+	}
+	cfg := c03Config("forward")
+	cfg.Cache.MemSize = 1 << 20
+	v, err := vNewRouter(cfg, "u1")
+	if err != nil {
+		fail("router-start", err.Error())
+		return
+	}
+	defer v.Close()
+	u := v.ups["u1"]
+	u.Auto = func(uq *upQuery) *upResult {
+		if uq.Msg == nil {
+			return &upResult{err: errScripted}
+		}
+		r := env.Answer(uq.Msg, 1, 60)
+		for i := 0; i < ntxt; i++ {
+			r.An = append(r.An, refdns.TXT(uq.Msg.Q[0].Name, 60, 240, byte('a'+i)))
+		}
+		if lastTxt >= 0 {
+			r.An = append(r.An, refdns.TXT(uq.Msg.Q[0].Name, 60, lastTxt, 'z'))
+		}
+		if upOpt {
+			r.Ar = []refdns.RR{refdns.OPT(1232, 0, refdns.Option(10, make([]byte, 16)))}
+		}
+		return &upResult{wire: r.Encode(false)}
+	}
+	q := refdns.Query(0x1215, refdns.N("size", "example", "test"), 1, 1)
+	if lastTxt >= 0 {
+		// a short owner name: the closer a record's compressed form is to its uncompressed length, the fuller a message can get
+		q = refdns.Query(0x1215, refdns.N("s", "t"), 1, 1)
+	}
+	if adv >= 0 {
+		q.Ar = []refdns.RR{refdns.OPT(uint16(adv), 0, nil)}
+	}
+	obs := ""
+	for round := 0; round < 2; round++ {
+		cl := sm.open(v)
+		cl.send(q)
+		wait()
+		hsleep(100 * time.Millisecond)
+		wait()
+		ms, raws := cl.responses()
+		if len(raws) != 1 || len(ms) != 1 || ms[0] == nil {
+			fail("response-count", fmt.Sprintf("round %d: %d responses (%d decodable)", round, len(raws), len(ms)))
+			return
+		}
+		for _, b := range c12CheckResponse(q, ms[0]) {
+			fail("response-opt", fmt.Sprintf("round %d (%s): %s\n  response of %d octets: tc=%v an=%d ar=%d", round, []string{"miss", "hit"}[round], b, len(raws[0]), ms[0].Has(refdns.BitTC), len(ms[0].An), len(ms[0].Ar)))
+		}
+		obs += fmt.Sprintf("%d/%v/%d;", len(raws[0]), ms[0].Has(refdns.BitTC), len(ms[0].OPTs()))
+		hsleep(time.Second)
+		wait()
+	}
+	v.Close()
+	wait()
+	for _, x := range own.Audit() {
+		fail("ownership", x)
+	}
+	rep.Eval(desc + "=>" + obs)
+	rep.State(desc)
+}
+
 func TestVerifC12(t *testing.T) {
 	rep := report.New("C12 EDNS0 / ECS")
 	defer rep.Write()
@@ -476,7 +563,8 @@ func TestVerifC12(t *testing.T) {
 		"x upstream reply {no OPT, empty OPT, ECS scope, cookie, padding+DO, a type-41 record with an owner name, no reply at all (the proxy's own SERVFAIL at the 6 s deadline), failed exchange}; each forward case walks miss -> hit -> hit in the last TTL quarter (background refresh) -> hit after refresh; plus ECS encoding for every single-bit and all-ones address (v4: 33, v6: 129, v4-mapped: 33); " +
 		"oracle: response has exactly one option-less OPT (size 1200, ttl field 0) iff the query had one; every upstream query (incl. refresh) has exactly one OPT with an ECS option iff enabled and address known, family/prefix 24|56, scope 0, 3|7 octets; " +
 		"plus the client address each listener uses (ECS on, miss and background refresh): every listener seam with its own peer address, and the net/http and fasthttp DoH servers (GET and POST) with client_addr_header " +
-		"{not configured: peer address v4/v6/v4-mapped/not an ip:port, configured and present: single value / comma list (first entry) for v4/v6/v4-mapped, configured but absent: unknown}; the front-end's own address never appears in ECS"
+		"{not configured: peer address v4/v6/v4-mapped/not an ip:port, configured and present: single value / comma list (first entry) for v4/v6/v4-mapped, configured but absent: unknown}; the front-end's own address never appears in ECS; " +
+		"plus the OPT rule under size limits: every listener seam x client OPT {absent, advertising 0, 100, 512, 513, 1232} x upstream answer of about {100, 600, 1500, 3000} octets x upstream OPT {absent, present}, miss and cache hit; on udp additionally the last answer record's length swept over 0..255 so that the records ahead of the OPT fill the message to every level around the limit"
 	if report.ReplayFile() == nil {
 		// ECS encoder: masking is bitwise, so single-bit + all-ones addresses cover every possible leak
 		n := 0
@@ -513,11 +601,18 @@ func TestVerifC12(t *testing.T) {
 			chk(netip.AddrFrom16(b))
 		}
 	}
-	srcReplay := false
+	srcReplay, sizeReplay := false, false
 	if rp := report.ReplayFile(); rp != nil {
-		var x struct{ Source bool }
+		var x struct{ Source, Size bool }
 		rp.Decode(&x)
-		srcReplay = x.Source
+		srcReplay, sizeReplay = x.Source, x.Size
+	}
+	if sizeReplay || report.ReplayFile() == nil {
+		st := runExplore(t, rep, -1, func(c *choice.Ctx) { c12SizeScenario(c, rep) })
+		rep.Count("executions_size_limits", st.Executions)
+		if sizeReplay {
+			return
+		}
 	}
 	if srcReplay || report.ReplayFile() == nil {
 		st := runExplore(t, rep, -1, func(c *choice.Ctx) { c12SourceScenario(c, rep) })
